@@ -1,4 +1,5 @@
 import PbProofs.Polyco
+import PbModel.Gen.Polyco
 
 /-! # C08 — Polyco prediction equals the tempo formula on every entry's span
 
@@ -93,5 +94,19 @@ theorem C08_range_errors (tol : Rat) (es : List Entry) (t : Rat) (n : Nat)
 example : intervals (1/1000) [⟨1800, 3600, 0, []⟩, ⟨5400, 3600, 0, []⟩] = [(0, 7200)] ∧
     intervals (1/1000) [⟨1800, 3600, 0, []⟩, ⟨9000, 3600, 0, []⟩] = [(0, 3600), (7200, 10800)] := by
   decide +kernel
+
+/-- **translator tie**: the literals of `predictor.py` (regenerated from the source on every run) are
+the constants the model uses — polynomial domain `[-60, 60]` minutes (so `convert()` substitutes
+`x / 60`), `F0 · 60`, three coefficients per line, 1 ms merge tolerance, `deriv(n + 1)` in both
+branches of `f0`, left `searchsorted` on the span ends, and `not np.all(check)` as the range test. -/
+theorem C08_source_literals :
+    Gen.Polyco.extractOk = true ∧
+    Gen.Polyco.domLo + Gen.Polyco.domHi = 0 ∧ (2 : Rat) / ((Gen.Polyco.domHi - Gen.Polyco.domLo : Int) : Rat) = 1 / 60 ∧
+    Gen.Polyco.f0Factor = 60 ∧ Gen.Polyco.perLine = 3 ∧
+    Gen.Polyco.tolNum = 1 ∧ Gen.Polyco.tolUnit = "u.ms" ∧
+    Gen.Polyco.derivOffsets = [1, 1] ∧
+    Gen.Polyco.side = "left" ∧ Gen.Polyco.sortedOn = "span_ends.mjd" ∧ Gen.Polyco.rangeAll = true := by
+  refine ⟨by decide, by decide, ?_, by decide, by decide, by decide, by decide, by decide, by decide, by decide, by decide⟩
+  norm_num [Gen.Polyco.domHi, Gen.Polyco.domLo]
 
 end Pb.C08
